@@ -282,8 +282,15 @@ def run_history(scn, chooser):
                 if os.path.exists(path):
                     os.unlink(path)
                     _fact(res, 'persisted-env-lost')
-            init_env = mods['common'].read_env(root=root, names=names,
-                                               filename=FILENAME, fmt='pickle')
+            try:
+                init_env = mods['common'].read_env(
+                    root=root, names=names, filename=FILENAME, fmt='pickle')
+            except Exception as exc:   # noqa: a run that cannot even start
+                res.violations.append((
+                    'run-raised', 'run-raised:%s' % type(exc).__name__,
+                    {'run': r, 'where': 'read_env',
+                     'exception': repr(exc)[:300]}))
+                break
             init = snapshot(init_env, scn, here)
             if prev is not None:
                 carried_over(scn, r, here, run['lose_env'], prev, init, res)
